@@ -520,7 +520,7 @@ pub fn run_scenario(sc: &Scenario, rng: &mut Rng) -> RunRecord {
                     let f = frame_bytes(0x01, &body);
                     push(&mut cs, &mut rec, &mut wire_in_len, &f, Some((0x01, body)));
                     rec.shared_secret = Some(ss.clone());
-                    if ss.len() == 16 {
+                    if ss.len() == 16 && cs.last_enc_req.is_some() {
                         cs.enc = Some(Enc::new_from_slices(&ss, &ss).unwrap());
                         cs.dec = Some(Dec::new_from_slices(&ss, &ss).unwrap());
                         rec.enc_from_in_offset = Some(wire_in_len);
